@@ -46,6 +46,10 @@ Definition check_add : rd verdict :=
   bs <- getlist getz ;; lats <- getlist getz ;;
   panicked <- getbool ;; icounts <- getlist getz ;; itotal <- getz ;;
   json_panic <- getbool ;; json <- getpairs ;; text <- getpairs ;;
+  via_ok <- getbool ;; via_counts <- getlist getz ;;
+  let vvia := if negb (in_domain bs lats) then VOk
+              else prop_ok 8 (via_ok && match lats with [] => true | _ => list_eqb via_counts (cvec_b bs lats) end)
+                             (firstn 8 via_counts) in
   let model := hist_adds (hist_init bs) lats in
   let vdiff :=
     match model with
@@ -65,7 +69,7 @@ Definition check_add : rd verdict :=
             end ]
     end in
   ret (combine_verdicts
-         [check_add_obs bs lats panicked icounts itotal json_panic json text; vdiff]).
+         [check_add_obs bs lats panicked icounts itotal json_panic json text; vvia; vdiff]).
 
 (* unmarshal: input bytes; implementation: ok flag and parsed bounds *)
 Definition check_unmarshal : rd verdict :=
